@@ -46,7 +46,7 @@ func main() {
 	if !*keep {
 		defer os.RemoveAll(work)
 	}
-	o := runOpts{Tier: *tier, Timeout: 10 * time.Second, Par: runtime.NumCPU() / 2, Workdir: work, Verbose: *verbose}
+	o := runOpts{Tier: *tier, Timeout: 10 * time.Second, Par: (runtime.NumCPU() + 2) / 3, Workdir: work, Verbose: *verbose}
 	if *tier == "thorough" {
 		o.Timeout = 60 * time.Second
 		o.All = true
